@@ -261,6 +261,28 @@ def special_inputs():
         out.append(("xlsx", "special:xlsx-typed-cells", b.getvalue()))
     except Exception:  # noqa
         pass
+    # valid containers whose XML is well-formed but semantically invalid (third-party parsers then raise
+    # errors with multi-line messages: the CLI must still print exactly one diagnostic line)
+    try:
+        import zipfile as _zf
+        for (ext, lab, b) in list(out):
+            if ext != "xlsx":
+                continue
+            zin = _zf.ZipFile(io.BytesIO(b))
+            for member, old, new in [("xl/workbook.xml", b'visibility="visible"', b'visibility="sideways"'),
+                                     ("xl/styles.xml", b'patternType="gray125"', b'patternType="plaid"'),
+                                     ("xl/workbook.xml", b'sheetId="1"', b'sheetId="one"')]:
+                if member not in zin.namelist() or old not in zin.read(member):
+                    continue
+                buf = io.BytesIO()
+                with _zf.ZipFile(buf, "w", _zf.ZIP_DEFLATED) as zout:
+                    for nme in zin.namelist():
+                        d = zin.read(nme)
+                        zout.writestr(nme, d.replace(old, new) if nme == member else d)
+                out.append(("xlsx", f"special:xlsx-bad-enum-{new.decode().split('=')[0]}", buf.getvalue()))
+            break
+    except Exception:  # noqa
+        pass
     out.append(("txt", "special:empty-txt", b""))
     out.append(("txt", "special:lone-surrogate-utf16", "a\ud800b".encode("utf-16-le", "surrogatepass")))
     out.append(("html", "special:html-newline-title", b"<html><head><title>a\nb</title></head><body>x</body></html>"))
@@ -276,6 +298,41 @@ def special_inputs():
     out.append(("mhtml", "special:mhtml-nul-in-charset", b'MIME-Version: 1.0\nContent-Type: text/html\n\n'
                 b'<html><head><meta charset="utf\x00-8"></head><body>x</body></html>'))
     out.append(("txt", "special:txt-nul", b"a\x00b"))
+    # 7z archives whose header is internally inconsistent but whose CRCs match (plain bit flips are
+    # rejected by the CRC check before the header parser runs)
+    try:
+        import sevenz_min
+        files = [("a.txt", b"hello A"), ("b.txt", b"hello B"), ("d", None), ("c.md", b"# c")]
+        variants = {
+            "more-files-than-names": dict(declared_files=9),
+            "fewer-files-than-names": dict(declared_files=1),
+            "zero-files": dict(declared_files=0),
+            "name-without-terminator": dict(names_blob="a.txt".encode("utf-16-le")),
+            "odd-length-names": dict(names_blob=b"a\x00b"),
+            "empty-names": dict(names_blob=b""),
+            "only-terminators": dict(names_blob=b"\x00\x00" * 4),
+            "trailing-bytes": dict(trailing=b"\x00" * 64),
+            "solid": dict(solid=True),
+        }
+        for nm, kw in variants.items():
+            out.append(("7z", f"special:7z-{nm}", sevenz_min.write_7z(files, **kw)))
+    except Exception:  # noqa
+        pass
+    # e-mails carrying small text attachments (incl. a UTF-8 BOM, as "CSV UTF-8" exports have)
+    try:
+        from email.message import EmailMessage
+        for bom in (b"", b"\xef\xbb\xbf"):
+            m = EmailMessage()
+            m["From"] = "a@x.org"; m["To"] = "b@x.org"; m["Subject"] = "att"; m["Date"] = "Mon, 01 Jan 2024 00:00:00 +0000"
+            m.set_content("body")
+            for fn, ctype, data in [("t.txt", "text/plain", bom + b"plain text"), ("c.csv", "text/csv", bom + b"a,b\n1,2\n"),
+                                    ("j.json", "application/json", bom + b'{"a": 1}'), ("h.html", "text/html", bom + b"<p>x</p>"),
+                                    ("m.md", "text/markdown", bom + b"# t"), ("bad.docx", "application/octet-stream", b"PK\x03\x04junk")]:
+                mt, st = ctype.split("/")
+                m.add_attachment(data, maintype=mt, subtype=st, filename=fn)
+            out.append(("eml", f"special:eml-text-attachments{'-bom' if bom else ''}", m.as_bytes()))
+    except Exception:  # noqa
+        pass
     return out
 
 
